@@ -9,7 +9,8 @@ from pygopherd.handlers.virtual import Virtual
 
 class PYGHandler(Virtual):
     def canhandlerequest(self) -> bool:
-        if not isinstance(self.vfs, VFS_Real):
+        # Subclasses of VFS_Real (the ZIP file system) are not real files.
+        if type(self.vfs) is not VFS_Real:
             return False
 
         if not (
